@@ -625,7 +625,31 @@ def builtin_method(I, recv, name, args, kw):
     raise Unsupported(f'method {name} of {type(recv).__name__}')
 
 
+def mapping_mixin(I, obj, name, args, kw):
+    """collections.abc.Mapping mixin methods in terms of the class's own __getitem__ / __iter__ / __len__"""
+    interp = _interp_mod()
+    geti = I.find_method(obj.cls, '__getitem__')
+    keys = lambda: list(I.iterate(obj))
+    if name == 'keys':
+        return PList(keys())
+    if name == 'values':
+        return PList([I.call(geti, [obj, k], {}) for k in keys()])
+    if name == 'items':
+        return PList([(k, I.call(geti, [obj, k], {})) for k in keys()])
+    if name in ('get', '__contains__'):
+        try:
+            v = I.call(geti, [obj, args[0]], {})
+            return v if name == 'get' else True
+        except interp.PyRaise as pr:
+            if issubclass(pr.exc.cls, KeyError):
+                return (args[1] if len(args) > 1 else None) if name == 'get' else False
+            raise
+    raise Unsupported(f'Mapping.{name}')
+
+
 def object_method(I, obj, name, args, kw):
+    if name in ('keys', 'values', 'items', 'get', '__contains__') and I.find_method(obj.cls, '__getitem__') is not None:
+        return mapping_mixin(I, obj, name, args, kw)
     if name == '__getattribute__':
         (attr,) = args
         if is_sym(attr):
@@ -711,6 +735,14 @@ def dict_method(I, d, name, args, kw):
         return getitem(I, d, args[0])
     if name == '__setitem__':
         return setitem(I, d, args[0], args[1])
+    if name == '__iter__':
+        return DictView(d, 'keys')
+    if name == '__len__':
+        return I.dict_len(d)
+    if name in ('__repr__', '__str__'):
+        return to_str(I, d)
+    if name == '__hash__':
+        I.raise_(TypeError, "unhashable type: 'dict'")
     raise Unsupported(f'dict.{name}')
 
 
@@ -1916,3 +1948,13 @@ def m_asdict(I, args, kw):
             return d
         return v
     return conv(args[0])
+
+
+# =========================================================================================== threading
+import threading as _threading
+import _thread
+
+
+@model(_threading.Lock, _thread.allocate_lock)
+def m_lock(I, args, kw):
+    return LockVal()
